@@ -479,6 +479,16 @@ class OsProxy:
     def getpid(self):
         return self._fs.current_pid()
 
+    def kill(self, pid, sig):
+        """signal 0 only: does the simulated process exist?"""
+        if sig != 0:
+            raise StubGap(f"os.kill({pid}, {sig})")
+        self._fs.yield_point("os/kill")
+        sched = self._sched
+        procs = [] if sched is None else sched.procs
+        if not any(q.pid == pid and q.state not in ("exited", "crashed") for q in procs):
+            raise ProcessLookupError(3, "No such process")
+
     # real-time scheduling of the subprocess: nothing to simulate
     def sched_param(self, prio):
         return prio
